@@ -35,7 +35,7 @@ brk("c03-rhs-on-successor", ["C03"], OP, "            effect.apply(new_state, pr
 brk("c03-skip-universal-on-allow", ["C03"], OP, "        self._apply_universal_effects(previous_state, new_state)\n        return new_state",
     "        if not allow_inapplicable_actions:\n            self._apply_universal_effects(previous_state, new_state)\n        return new_state", {"C03": ["C03.universal"]})
 brk("c03-universal-args-swapped", ["C03"], OP, "        self._apply_universal_effects(previous_state, new_state)\n",
-    "        self._apply_universal_effects(new_state, new_state)\n", {"C03": ["C03.copy"]})
+    "        self._apply_universal_effects(new_state, new_state)\n", {"C03": ["C03.antecedent"]})
 brk("c06-reintroduce-F6", ["C06", "C03"], OP, "if not pddl_object.type.is_sub_type(universal_effect.quantified_type):",
     "if pddl_object.type.name != universal_effect.quantified_type.name:", {"C06": ["C06.conform"], "C03": ["C03.range"]}, "original defect F6")
 brk("c06-subtype-reversed", ["C06"], OP, "if not pddl_object.type.is_sub_type(universal_effect.quantified_type):",
